@@ -6,7 +6,7 @@ RULE = ("histories of one session between a real ClientConn and a real Server ov
         "label sequence and the observed results, handler instances, pending tables and frames in flight are replayed through Session.exec; "
         "independently every reply must embed the caller's own token; handler error texts, forged error texts, tokens and unknown method names "
         "contain '%' sequences (\"disk 100% full\", \"%d\", \"%s%!\", \"%%\") in both call directions: text is data and must arrive unchanged; "
-        "distinct = distinct step sequence")
+        "the unidirectional client's scripted calls (C20's harness) against Uni.run_invoke; distinct = distinct step sequence")
 ASSUMPTIONS = ["quiescence after a step is detected by the observable state being stable over 8 consecutive samples",
                "call ids (uuid.NewString) do not collide: the theorems assume NoDup of the ids of a history"]
 FILES = ["root/fake_test.go", "root/c16_test.go", "root/c07_test.go", "root/session_test.go", "root/c01_test.go"]
@@ -22,3 +22,15 @@ def run(ctx, test="^TestVerifC01$", name="C01"):
         if r.get("fail"):
             ctx.fail(r["fail"].split("/")[0], "session monitor '%s' failed: %s" % (r["fail"], str(r.get("info"))[:500]), case=r)
     ctx.model("Run.RunSession", recs, shard=6)
+    if name == "C01":
+        # the unidirectional client is a caller too: the outcome of every scripted call (reply, empty reply, remote error, ...)
+        # against Uni.run_invoke; the monitors which belong to C20's known findings are not consulted here
+        import props.C20 as c20
+        rc2, out2, recs2 = ctx.go("", "^TestVerifC20$", c20.FILES, "wsrpc", timeout=600 if ctx.thorough else 240,
+                                  rewrites={"uni_client.go": [(r"\btime\.After\(", "vTimeAfter(")]})
+        uni = [dict(r, fail="") for r in recs2 if r.get("class", "").startswith("invoke/") and r.get("coq")]
+        if rc2 != 0 or not uni:
+            ctx.fail("harness:C01-uni", "the uni-client harness did not run to completion on this tree: " + out2[-1200:], kind="correspondence", no_input=True)
+            return
+        ctx.records += uni
+        ctx.model("Run.RunC20", uni, shard=300)
